@@ -1,0 +1,19 @@
+//go:build verif
+// +build verif
+
+// Machine-checked contracts for this package (checked by /verif/govc).
+// Comment-only: no executable code.
+
+package types
+
+//@ func (*AccountID).ValidateBasic
+//@   ensures result == nil <==> (len(obj.Scope) > 0 && len(obj.XID) > 0)
+
+//@ func (*Account).ValidateBasic
+//@   ensures result == nil <==> (len(obj.ID.Scope) > 0 && len(obj.ID.XID) > 0 && validBech32(obj.Owner) && obj.State != AccountStateInvalid)
+
+//@ func (*Payment).ValidateBasic
+//@   ensures result == nil <==> (len(obj.AccountID.Scope) > 0 && len(obj.AccountID.XID) > 0 && len(obj.PaymentID) > 0
+//@                               && obj.Rate.Amount != 0 && obj.State != PaymentStateInvalid)
+
+//@ property C03 := (*AccountID).ValidateBasic#*, (*Account).ValidateBasic#*, (*Payment).ValidateBasic#*
